@@ -185,7 +185,8 @@ def direction_forms(r, tier, seed):
                 r.check(np.allclose(Y, Yw, rtol=0, atol=1e-12), 'result for this direction form = layer scheme in the requested direction', dict(g=g, direction=repr(form)), Y, Yw,
                         replay_code=REPLAY_HEAD + f"g={g}; n=(g[0],g[1],max(g[2],1))\nd=pym.DomainDefinition(*g,0.5,2.0,1.5)\nx=np.array({X.ravel(order='F').tolist()})\nm=pym.OverhangFilter(pym.Signal('x',x),domain=d,direction={lit})\nm.response()\nw=np.array({Yw.ravel(order='F').tolist()})\nprint(m.direction)\nassert np.allclose(m.sig_out[0].state,w,rtol=0,atol=1e-12), np.abs(m.sig_out[0].state-w).max()\n")
                 if keep is not None:
-                    r.check(np.array_equal(form, keep), "caller's direction array is not modified", dict(g=g, direction=repr(keep)), form, keep)
+                    r.check(np.array_equal(form, keep), "caller's direction array is not modified", dict(g=g, direction=repr(keep)), form, keep,
+                            replay_code=REPLAY_HEAD + f"d=pym.DomainDefinition(*{g})\nv=np.array({keep.tolist()})\nm=pym.OverhangFilter(pym.Signal('x',np.ones(d.nel)),domain=d,direction=v)\nm.response()\nassert np.array_equal(v,np.array({keep.tolist()})), v\n")
         # inadmissible requests must be refused, not silently mapped to some axis
         d = pym.DomainDefinition(*g)
         bad = [dict(direction='xy'), dict(direction='+'), dict(direction='-yx'), dict(direction=''), dict(direction='y', nsampling=7), dict(direction='x', nsampling=4)]
@@ -199,15 +200,29 @@ def direction_forms(r, tier, seed):
                 ok = True
             r.check(ok, 'inadmissible direction / nsampling is rejected at construction', dict(g=g, **kw),
                     replay_code=REPLAY_HEAD + f"d=pym.DomainDefinition(*{g})\ntry:\n    pym.OverhangFilter(pym.Signal('x',np.ones(d.nel)),domain=d,**{kw!r})\nexcept (ValueError, AssertionError):\n    sys.exit(0)\nassert False, 'accepted'\n")
+        # all keyword arguments omitted: print direction +y, xi_0 = 0.5, p = 40, eps = 1e-4, nsampling 3 / 5
+        r.case((g, 'defaults'))
+        with guard(r, dict(g=g, what='all keyword arguments omitted'), REPLAY_HEAD + f"d=pym.DomainDefinition(*{g})\nm=pym.OverhangFilter(pym.Signal('x',np.ones(d.nel)),domain=d)\nm.response()\n"):
+            sdef = pym.Signal('x', X.ravel(order='F').copy())
+            mdef = pym.OverhangFilter(sdef, domain=d)
+            mdef.response()
+            Yd = ref_overhang(X, dim, 1, 1, 3 if dim == 2 else 5, *DEFAULT)[0].ravel(order='F')
+            r.check(np.array_equal(mdef.direction, [0.0, 1.0, 0.0]) and np.allclose(mdef.sig_out[0].state, Yd, rtol=0, atol=1e-12), 'defaults: direction +y, xi_0=0.5, p=40, eps=1e-4, nsampling 3 (2D) / 5 (3D)', dict(g=g), mdef.sig_out[0].state, Yd,
+                    replay_code=REPLAY_HEAD + f"d=pym.DomainDefinition(*{g})\nx=np.array({X.ravel(order='F').tolist()})\nm=pym.OverhangFilter(pym.Signal('x',x),domain=d)\nm.response()\nw=np.array({Yd.tolist()})\nprint(m.direction, np.abs(m.sig_out[0].state-w).max())\nassert np.array_equal(m.direction,[0.,1.,0.]) and np.allclose(m.sig_out[0].state,w,rtol=0,atol=1e-12)\n")
         for ns in ((None, 3) if dim == 2 else (None, 5, 9)):
-            m = pym.OverhangFilter(pym.Signal('x', np.ones(d.nel)), domain=d, direction='x', nsampling=ns)
             r.case((g, 'ns', ns))
-            r.check(m.nsampling == ({2: 3, 3: 5}[dim] if ns is None else ns), 'nsampling default 3 (2D) / 5 (3D), else as given', dict(g=g, nsampling=ns), m.nsampling)
+            try:
+                m = pym.OverhangFilter(pym.Signal('x', np.ones(d.nel)), domain=d, direction='x', nsampling=ns)
+            except Exception as e:
+                r.check(False, 'admissible nsampling is accepted', dict(g=g, nsampling=ns), repr(e)[:300])
+                continue
+            r.check(m.nsampling == ({2: 3, 3: 5}[dim] if ns is None else ns), 'nsampling default 3 (2D) / 5 (3D), else as given', dict(g=g, nsampling=ns), m.nsampling,
+                    replay_code=REPLAY_HEAD + f"d=pym.DomainDefinition(*{g})\nm=pym.OverhangFilter(pym.Signal('x',np.ones(d.nel)),domain=d,direction='x',nsampling={ns})\nassert m.nsampling=={({2: 3, 3: 5}[dim] if ns is None else ns)}, m.nsampling\n")
 
 
 @bound('all 2D domains up to 4x4 and 3D up to 3x3x3 plus 7x2, 2x7, 5x2x4, 2x5x3 [quick]; up to 6x6 / 4x4x4 plus 5 elongated [thorough] (one-element-wide '
        'included); all 4/6 directions (vector and string alternating); nsampling 3 / 5 and 9; parameters (xi_0,p,eps): default plus one of '
-       '{(0.3,20,1e-2),(0.8,80,1e-6),(0.5,40,0),(0.65,30,1e-3),(0.5,60,1e-4)} rotating; fields: uniform, binary, 0/1/xi_0 mixture, constant; tol 1e-12 (observed discrepancy 6e-16)')
+       '{(0.3,20,1e-2),(0.8,80,1e-6),(0.5,40,0),(0.65,30,1e-3),(0.5,60,1e-4)} rotating; fields: uniform, binary, 0/1/xi_0 mixture, constant (1 round quick / 3 rounds thorough, all on one module per configuration); tol 1e-12 (observed discrepancy 6e-16)')
 def layer_scheme(r, tier, seed):
     rng = np.random.default_rng(seed + 11)
     k = 0
@@ -215,11 +230,12 @@ def layer_scheme(r, tier, seed):
         dim, n = dim_of(g), shape3(g)
         for (axis, sgn), ns in itertools.product(directions(g), (3,) if dim == 2 else (5, 9)):
             k += 1
-            for par in (DEFAULT, PARAMS[1 + k % (len(PARAMS) - 1)]):
+            for pi, par in enumerate((DEFAULT, PARAMS[1 + (k + k // 5 + k // 12) % (len(PARAMS) - 1)])):
                 xi0, p, eps = par
-                direction = dirvec(axis, sgn)[:dim if k % 4 else 3] if k % 2 else (('-' if sgn < 0 else '+') + AX[axis])
+                form = (k + k // 2 + k // 4 + k // 12 + pi) % 4   # rotates so that every direction / nsampling meets every form and parameter set
+                direction = [dirvec(axis, sgn)[:dim], dirvec(axis, sgn), ('-' if sgn < 0 else '+') + AX[axis], AX[axis].upper() + ('-' if sgn < 0 else '')][form]
                 ms = None
-                for name, X in fields(rng, n, xi0, k):
+                for name, X in [(f'{nm}{rd}', F) for rd in range(1 if tier == 'quick' else 3) for nm, F in fields(rng, n, xi0, k + rd)]:
                     r.case((g, axis, sgn, ns, par, name))
                     x0 = X.ravel(order='F').copy()
                     inp = dict(g=g, direction=direction, ns=ns, par=par, field=name, x=x0)
@@ -233,8 +249,9 @@ def layer_scheme(r, tier, seed):
                         base[axis] = 0 if sgn > 0 else n[axis] - 1
                         base = tuple(base)
                         wl = Yw.ravel(order='F').tolist()
+                        code_ref = replay(g, X, direction, ns, par, f"w=np.array({wl})\nprint(w.reshape(n,order='F'))\nassert isinstance(m.sig_out[0].state,np.ndarray) and y.dtype==np.float64 and y.shape==x.shape\nassert np.all(np.isfinite(y))\nassert np.allclose(y,w,rtol=0,atol=1e-12), np.abs(y-w).max()\n")
                         y = np.asarray(m.sig_out[0].state)
-                        r.check(isinstance(m.sig_out[0].state, np.ndarray) and y.shape == x0.shape and y.dtype == np.float64, 'output is a float vector of the input size', inp, (y.shape, str(y.dtype)))
+                        r.check(isinstance(m.sig_out[0].state, np.ndarray) and y.shape == x0.shape and y.dtype == np.float64, 'output is a float vector of the input size', inp, (y.shape, str(y.dtype)), replay_code=code_ref)
                         r.check(np.array_equal(Y[base], X[base]), 'base layer is returned unchanged (exactly)', inp, Y[base], X[base],
                                 replay_code=replay(g, X, direction, ns, par, f"X=x.reshape(n,order='F')\nb=[slice(None)]*3; b[{axis}]={base[axis]}; b=tuple(b)\nassert np.array_equal(Y[b],X[b])\n"))
                         r.check(np.allclose(Y, Yw, rtol=0, atol=1e-12), 'y_e = smin(x_e, smax(printed supports in the previous layer)) for every element', inp, Y, Yw,
@@ -242,8 +259,8 @@ def layer_scheme(r, tier, seed):
                         r.check(np.all(Y <= X + math.sqrt(eps) / 2 + 1e-14), 'no element exceeds its input by more than sqrt(eps)/2', inp, float((Y - X).max()), math.sqrt(eps) / 2,
                                 replay_code=replay(g, X, direction, ns, par, f"assert np.all(y<=x+{math.sqrt(eps) / 2!r}+1e-14), (y-x).max()\n"))
                         nb = ~np.isnan(Sw)
-                        r.check(np.all(Y[nb] <= Sw[nb] + math.sqrt(eps) / 2 + 1e-10), 'no element exceeds the smooth maximum of its supports by more than sqrt(eps)/2', inp)
-                        r.check(np.all(np.isfinite(Y)), 'result is finite', inp, Y)
+                        r.check(np.all(Y[nb] <= Sw[nb] + math.sqrt(eps) / 2 + 1e-10), 'no element exceeds the smooth maximum of its supports by more than sqrt(eps)/2', inp, replay_code=code_ref)
+                        r.check(np.all(np.isfinite(Y)), 'result is finite', inp, Y, replay_code=code_ref)
                         r.check(np.array_equal(np.asarray(s.state), x0), 'input signal is not modified', inp, np.asarray(s.state), x0,
                                 replay_code=replay(g, X, direction, ns, par, "assert np.array_equal(s.state,x)\n"))
 
@@ -359,12 +376,13 @@ def apply_T(A, perm, flips):
 def equivariance(r, tier, seed):
     rng = np.random.default_rng(seed + 13)
     gs = [(4, 3, 0), (1, 4, 0), (3, 3, 0), (3, 2, 4), (2, 2, 1)] + ([] if tier == 'quick' else [(5, 4, 0), (3, 3, 3), (4, 3, 5)])
-    k = 0
+    k = c14 = 0
     for g in gs:
         dim, n = dim_of(g), shape3(g)
         cache = {}   # modules are re-used across maps (construction is slow); every module therefore also sees a history of different fields
         for (axis, sgn), ns in itertools.product(directions(g), (3,) if dim == 2 else (5, 9)):
-            par = PARAMS[k % 3]
+            c14 += 1
+            par = PARAMS[c14 % 3]
             Xs = [rng.random(n), np.round(rng.random(n) * 4) / 4]
             try:
                 ms0 = make(g, dirvec(axis, sgn), ns, par)
@@ -378,7 +396,7 @@ def equivariance(r, tier, seed):
                 na = perm.index(axis)
                 nsgn = -sgn if flips[na] else sgn
                 g2 = tuple(g[perm[a]] for a in range(dim)) + ((0,) if dim == 2 else ())
-                direction = dirvec(na, nsgn) if k % 2 else (AX[na] + ('-' if nsgn < 0 else '+'))
+                direction = dirvec(na, nsgn) if (k + k // 2 + k // 4 + k // 8) % 2 else (AX[na] + ('-' if nsgn < 0 else '+'))
                 key = (g2, repr(direction), ns, par)
                 for X, Y in zip(Xs, Ys):
                     X2 = apply_T(X, perm, flips)
@@ -398,64 +416,72 @@ def equivariance(r, tier, seed):
                             f"Y=go({g},X.ravel(order='F'),{dirvec(axis, sgn)})\nY2=go({g2},T(X).ravel(order='F'),{direction!r})\nprint(np.abs(Y2-T(Y)).max())\nassert np.allclose(Y2,T(Y),rtol=0,atol=1e-12)\n")
 
 
-@bound('one module per (domain in {4x3, 3x1, 3x2x3}, direction, nsampling); sequence of 7 response() calls: x1, x2, x1, (caller overwrites the returned array), x1, '
+@bound('one module per (domain in {4x3, 3x1, 3x2x3} [+ {5x4, 1x6, 2x3x4, 4x1x3} thorough], direction, nsampling); sequence of 7 response() calls: x1, x2, x1, (caller overwrites the returned array), x1, '
        '(sensitivity() with a seed), x1, reset(), x3 assigned as new array, x3 modified in place; each result compared with the element-wise reference; input never modified; '
        'output never aliases the input')
 def histories(r, tier, seed):
     rng = np.random.default_rng(seed + 14)
-    for g in ((4, 3, 0), (3, 1, 0), (3, 2, 3)):
-        dim, n = dim_of(g), shape3(g)
-        for (axis, sgn), ns in itertools.product(directions(g), (3,) if dim == 2 else (5, 9)):
-            par = DEFAULT
-            x1, x2, x3 = [rng.random(n) for _ in range(3)]
-            x2[x2 < 0.3] = 0.0
-            ref = lambda X: ref_overhang(X, dim, axis, sgn, ns, *par)[0].ravel(order='F')
-            d = pym.DomainDefinition(*g)
-            s = pym.Signal('x', x1.ravel(order='F').copy())
-            m = pym.OverhangFilter(s, domain=d, direction=dirvec(axis, sgn), nsampling=ns)
-            inp = dict(g=g, axis=axis, sgn=sgn, ns=ns)
-            head = REPLAY_HEAD + (f"d=pym.DomainDefinition(*{g})\nx1=np.array({x1.ravel(order='F').tolist()})\nx2=np.array({x2.ravel(order='F').tolist()})\nw1=np.array({ref(x1).tolist()})\nw2=np.array({ref(x2).tolist()})\n"
-                                  f"s=pym.Signal('x',x1.copy())\nm=pym.OverhangFilter(s,domain=d,direction={dirvec(axis, sgn)},nsampling={ns})\n"
-                                  "ok=lambda w: np.allclose(m.sig_out[0].state,w,rtol=0,atol=1e-12)\n")
-
-            def step(label, X, code):
-                r.case((g, axis, sgn, ns, label))
-                before = np.asarray(s.state).copy()
-                try:
-                    m.response()
-                except Exception as e:
-                    r.check(False, f'call sequence, step "{label}": evaluation raises', dict(inp, step=label), repr(e)[:300], replay_code=head + code)
-                    return np.zeros(d.nel)
-                y = np.asarray(m.sig_out[0].state)
-                r.check(np.allclose(y, ref(X), rtol=0, atol=1e-12), f'call sequence, step "{label}": result = layer scheme of the current input (nothing stale)', dict(inp, step=label), y, ref(X), replay_code=head + code)
-                r.check(np.array_equal(np.asarray(s.state), before) and np.array_equal(before, X.ravel(order='F')), f'call sequence, step "{label}": input state is not modified', dict(inp, step=label), replay_code=head + code)
-                r.check(not np.shares_memory(y, np.asarray(s.state)), f'call sequence, step "{label}": output does not alias the input', dict(inp, step=label))
-                return y
-
-            step('first', x1, "m.response()\nassert ok(w1)\nassert np.array_equal(s.state,x1)\n")
-            s.state = x2.ravel(order='F').copy()
-            step('new input', x2, "m.response()\ns.state=x2.copy()\nm.response()\nassert ok(w2)\nassert np.array_equal(s.state,x2)\n")
-            s.state = x1.ravel(order='F').copy()
-            y = step('back to first input', x1, "m.response()\ns.state=x2.copy()\nm.response()\ns.state=x1.copy()\nm.response()\nassert ok(w1)\n")
-            y[:] = -3.0   # the caller re-uses the returned array
-            r.check(np.array_equal(np.asarray(s.state), x1.ravel(order='F')), 'overwriting the returned array does not change the input', inp)
-            step('after caller overwrote the output', x1, "m.response()\nm.sig_out[0].state[:]=-3.0\nassert np.array_equal(s.state,x1)\nm.response()\nassert ok(w1)\n")
-            m.sig_out[0].sensitivity = rng.random(d.nel)
+    for g in ((4, 3, 0), (3, 1, 0), (3, 2, 3)) + (() if tier == 'quick' else ((5, 4, 0), (1, 6, 0), (2, 3, 4), (4, 1, 3))):
+        for (axis, sgn), ns in itertools.product(directions(g), (3,) if dim_of(g) == 2 else (5, 9)):
             try:
-                m.sensitivity()
+                history_one(r, rng, g, axis, sgn, ns)
             except Exception as e:
-                r.check(False, 'sensitivity() raises', inp, repr(e)[:300])
-            r.check(np.array_equal(np.asarray(s.state), x1.ravel(order='F')) and np.allclose(m.sig_out[0].state, ref(x1), rtol=0, atol=1e-12), 'sensitivity() changes neither the input nor the output state', inp,
-                    replay_code=head + "m.response()\nm.sig_out[0].sensitivity=np.linspace(0.1,1,d.nel)\nm.sensitivity()\nassert np.array_equal(s.state,x1) and ok(w1)\n")
-            step('after sensitivity()', x1, "m.response()\nm.sig_out[0].sensitivity=np.linspace(0.1,1,d.nel)\nm.sensitivity()\nm.response()\nassert ok(w1) and np.array_equal(s.state,x1)\n")
-            m.reset()
-            s.state = x3.ravel(order='F').copy()
-            step('after reset, third input', x3, f"x3=np.array({x3.ravel(order='F').tolist()})\nw3=np.array({ref(x3).tolist()})\nm.response()\nm.reset()\ns.state=x3.copy()\nm.response()\nassert ok(w3)\n")
-            x3b = x3.copy()
-            x3b[tuple(np.array(n) // 2)] = 1.0
-            x3b[(0, 0, 0)] = 0.0
-            s.state[:] = x3b.ravel(order='F')   # modified in place by the caller
-            step('input modified in place', x3b, f"x3=np.array({x3b.ravel(order='F').tolist()})\nw3=np.array({ref(x3b).tolist()})\nm.response()\ns.state[:]=x3\nm.response()\nassert ok(w3)\n")
+                r.check(False, 'call sequence on one module raises', dict(g=g, axis=axis, sgn=sgn, ns=ns), repr(e)[:300])
+
+
+def history_one(r, rng, g, axis, sgn, ns):
+    dim, n = dim_of(g), shape3(g)
+    par = DEFAULT
+    x1, x2, x3 = [rng.random(n) for _ in range(3)]
+    x2[x2 < 0.3] = 0.0
+    ref = lambda X: ref_overhang(X, dim, axis, sgn, ns, *par)[0].ravel(order='F')
+    d = pym.DomainDefinition(*g)
+    s = pym.Signal('x', x1.ravel(order='F').copy())
+    m = pym.OverhangFilter(s, domain=d, direction=dirvec(axis, sgn), nsampling=ns)
+    inp = dict(g=g, axis=axis, sgn=sgn, ns=ns)
+    head = REPLAY_HEAD + (f"d=pym.DomainDefinition(*{g})\nx1=np.array({x1.ravel(order='F').tolist()})\nx2=np.array({x2.ravel(order='F').tolist()})\nw1=np.array({ref(x1).tolist()})\nw2=np.array({ref(x2).tolist()})\n"
+                          f"s=pym.Signal('x',x1.copy())\nm=pym.OverhangFilter(s,domain=d,direction={dirvec(axis, sgn)},nsampling={ns})\n"
+                          "ok=lambda w: np.allclose(m.sig_out[0].state,w,rtol=0,atol=1e-12)\n")
+
+    def step(label, X, code):
+        r.case((g, axis, sgn, ns, label))
+        before = np.asarray(s.state).copy()
+        try:
+            m.response()
+        except Exception as e:
+            r.check(False, f'call sequence, step "{label}": evaluation raises', dict(inp, step=label), repr(e)[:300], replay_code=head + code)
+            return np.zeros(d.nel)
+        y = np.asarray(m.sig_out[0].state)
+        r.check(np.allclose(y, ref(X), rtol=0, atol=1e-12), f'call sequence, step "{label}": result = layer scheme of the current input (nothing stale)', dict(inp, step=label), y, ref(X), replay_code=head + code)
+        r.check(np.array_equal(np.asarray(s.state), before) and np.array_equal(before, X.ravel(order='F')), f'call sequence, step "{label}": input state is not modified', dict(inp, step=label), replay_code=head + code)
+        r.check(not np.shares_memory(y, np.asarray(s.state)), f'call sequence, step "{label}": output does not alias the input', dict(inp, step=label),
+                replay_code=head + "m.response()\nassert not np.shares_memory(m.sig_out[0].state, s.state)\n")
+        return y
+
+    step('first', x1, "m.response()\nassert ok(w1)\nassert np.array_equal(s.state,x1)\n")
+    s.state = x2.ravel(order='F').copy()
+    step('new input', x2, "m.response()\ns.state=x2.copy()\nm.response()\nassert ok(w2)\nassert np.array_equal(s.state,x2)\n")
+    s.state = x1.ravel(order='F').copy()
+    y = step('back to first input', x1, "m.response()\ns.state=x2.copy()\nm.response()\ns.state=x1.copy()\nm.response()\nassert ok(w1)\n")
+    y[:] = -3.0   # the caller re-uses the returned array
+    r.check(np.array_equal(np.asarray(s.state), x1.ravel(order='F')), 'overwriting the returned array does not change the input', inp, replay_code=head + "m.response()\nm.sig_out[0].state[:]=-3.0\nassert np.array_equal(s.state,x1)\n")
+    step('after caller overwrote the output', x1, "m.response()\nm.sig_out[0].state[:]=-3.0\nassert np.array_equal(s.state,x1)\nm.response()\nassert ok(w1)\n")
+    m.sig_out[0].sensitivity = rng.random(d.nel)
+    try:
+        m.sensitivity()
+    except Exception as e:
+        r.check(False, 'sensitivity() raises', inp, repr(e)[:300], replay_code=head + "m.response()\nm.sig_out[0].sensitivity=np.linspace(0.1,1,d.nel)\nm.sensitivity()\n")
+    r.check(np.array_equal(np.asarray(s.state), x1.ravel(order='F')) and np.allclose(m.sig_out[0].state, ref(x1), rtol=0, atol=1e-12), 'sensitivity() changes neither the input nor the output state', inp,
+            replay_code=head + "m.response()\nm.sig_out[0].sensitivity=np.linspace(0.1,1,d.nel)\nm.sensitivity()\nassert np.array_equal(s.state,x1) and ok(w1)\n")
+    step('after sensitivity()', x1, "m.response()\nm.sig_out[0].sensitivity=np.linspace(0.1,1,d.nel)\nm.sensitivity()\nm.response()\nassert ok(w1) and np.array_equal(s.state,x1)\n")
+    m.reset()
+    s.state = x3.ravel(order='F').copy()
+    step('after reset, third input', x3, f"x3=np.array({x3.ravel(order='F').tolist()})\nw3=np.array({ref(x3).tolist()})\nm.response()\nm.reset()\ns.state=x3.copy()\nm.response()\nassert ok(w3)\n")
+    x3b = x3.copy()
+    x3b[tuple(np.array(n) // 2)] = 1.0
+    x3b[(0, 0, 0)] = 0.0
+    s.state[:] = x3b.ravel(order='F')   # modified in place by the caller
+    step('input modified in place', x3b, f"x3=np.array({x3b.ravel(order='F').tolist()})\nw3=np.array({ref(x3b).tolist()})\nm.response()\ns.state[:]=x3\nm.response()\nassert ok(w3)\n")
 
 
 @bound('float32 density fields (floating 0/1 block and uniform 0.5) on 4x3 and 3x3x3, default parameters, directions +y / -x / +z: result must be finite and equal to the double '
